@@ -431,6 +431,30 @@ theorem beneficiary_gets (e : Env) (i fl k : Nat) (fr : FrameRes) (h : Admissibl
     unfold U256.saturatingAdd; rw [if_neg (by omega)]
   · intro bal cb; rfl
 
+/-- the beneficiary is the sender itself: its balance ends at `balance − fee + reward`, again without
+saturation -/
+theorem sender_is_beneficiary (e : Env) (i fl k : Nat) (fr : FrameRes) (h : Admissible e i fl fr)
+    (t : TxShape) (bal : Nat) (hbal : bal < W)
+    (hv : validateEnv e t = none) (hs : validateAgainstState e bal = none)
+    (o : Out) (hp : pipeline e fl k fr = some o) :
+    o.reward ≤ effectiveGasPrice e * o.gasUsed ∧
+    ∀ cb, (balances o bal cb true true).1 = bal - (effectiveGasPrice e * o.gasUsed + blobFee e) + o.reward ∧
+      (balances o bal cb true true).2 = (balances o bal cb true true).1 := by
+  obtain ⟨hmul, _, _, _⟩ := validated_facts e t bal hv hs
+  obtain ⟨hded, hle, hre, hsum, hdiff, hb⟩ := sender_pays e i fl k fr h t bal hbal hv hs o hp
+  have hrw := (beneficiary_gets e i fl k fr h hmul o hp).1
+  have hcp : (if enabled e.spec LONDON = true then effectiveGasPrice e - e.basefee else effectiveGasPrice e)
+      ≤ effectiveGasPrice e := by split <;> omega
+  have hr : o.reward ≤ effectiveGasPrice e * o.gasUsed := by
+    rw [hrw]; exact Nat.mul_le_mul hcp (Nat.le_refl _)
+  refine ⟨hr, fun cb => ⟨?_, rfl⟩⟩
+  have h2 := hb cb true
+  have hs2 : (balances o bal cb false true).1 = U256.saturatingAdd (deductCaller bal o.deducted) o.reimbursed := rfl
+  show U256.saturatingAdd (U256.saturatingAdd (deductCaller bal o.deducted) o.reimbursed) o.reward = _
+  rw [← hs2, h2]
+  unfold U256.saturatingAdd
+  rw [if_pos (by omega)]
+
 /-- London onwards, validated: what the sender pays is what the beneficiary gets plus the burnt base
 fee plus the blob fee -/
 theorem fee_split (e : Env) (i fl k : Nat) (fr : FrameRes) (h : Admissible e i fl fr)
@@ -462,10 +486,12 @@ theorem reimburse_exact_iff (e : Env) (g : Gas) :
   exact Nat.mod_eq_iff_lt (by omega)
 
 /-- where it bites (only without validation, e.g. balance check disabled): price 2^255, 4 gas all
-handed back: `effective_gas_price * 4` wraps to 0 and the sender is reimbursed nothing -/
+handed back: `effective_gas_price * 4` wraps to 0 and the sender is reimbursed nothing, after
+`deduct_caller` charged the saturated 2^256 − 1 -/
 theorem reimburse_wrap_counterexample :
     let e : Env := { sampleEnv with gasLimit := 4, gasPrice := 2^255, priorityFee := none }
-    ¬ (e.gasLimit * e.gasPrice < W) ∧ reimburseAmount e { limit := 4, remaining := 4, refunded := 0 } = 0 := by
+    ¬ (e.gasLimit * e.gasPrice < W) ∧ reimburseAmount e { limit := 4, remaining := 4, refunded := 0 } = 0 ∧
+    deductAmount e = some (W - 1) := by
   decide
 
 /-! ## from the validated transaction to the hypotheses -/
